@@ -197,22 +197,28 @@ class Check:
 
 MODULES = {
     'C01': ['C01', 'C01Attr', 'C01Sat', 'C01Ns', 'C01Has'],
+    'C02': ['C02', 'C02Site'],
     'C03': ['C03', 'C03Wrappers'],
     'C07': ['C07', 'C07Parse'],
     'C09': ['C09', 'C09Rx'],
     'C10': ['C10', 'C10Rx'],
     'C13': ['C13', 'C13Rx'],
+    'C17': ['C17', 'C17Dir'],
     'C18': ['C18', 'C18Range', 'C18Rx'],
+    'C19': ['C19', 'C19Rx'],
     'C20': ['C20', 'C20Rx'],
 }
 AUDITS = {
     'C01': ['C01', 'C01Attr', 'C01Sat', 'C01Has'],
+    'C02': ['C02', 'C02Site'],
     'C03': ['C03', 'C03Wrappers'],
     'C07': ['C07', 'C07Parse'],
     'C09': ['C09', 'C09Rx'],
     'C10': ['C10', 'C10Rx'],
     'C13': ['C13', 'C13Rx'],
+    'C17': ['C17', 'C17Dir'],
     'C18': ['C18', 'C18Range', 'C18Rx'],
+    'C19': ['C19', 'C19Rx'],
     'C20': ['C20', 'C20Rx'],
 }
 # `CxxRx` modules restate the property theorems about the regular expressions REGENERATED from the source
